@@ -28,7 +28,7 @@ func init() {
 			"watches added with operation sets that lack Remove/Rename (so that only IN_IGNORED tells of their end) whose paths are deleted or renamed: nothing on Errors; plus the close race (hundreds of iterations: a watched file renamed and the Watcher closed at once while WatchList pollers contend for its lock: nothing may arrive on Errors); an error satisfying errors.Is(ErrEventOverflow) must arrive, afterwards a sentinel, ordinary events, Add and Remove must work. distinct_nontrivial = distinct programs/histories that delivered >=1 event",
 		Assumptions: []string{"no fault is injected in parts (1) and (2): any value on Errors there is spurious", "overflow is provoked only in part (3)"},
 		Batches:     func(t string) int { return map[string]int{"quick": 16, "thorough": 64}[t] },
-		MustObserve: []string{"events_received", "directed_histories", "overflow_cases", "other_read_fault_sessions"},
+		MustObserve: []string{"events_received", "directed_histories", "overflow_cases", "other_read_fault_sessions", "restricted_ops_histories"},
 		Run:         runC10,
 	})
 }
